@@ -21,16 +21,32 @@ PROFILE_W = None
 
 
 def strategy(tier):
-    return gen.case_strategy(150 if tier == 'quick' else 250, profiles=['isolation', 'isolation', 'elections', 'mixed'])
+    from hypothesis import strategies as st
+    base = gen.case_strategy(150 if tier == 'quick' else 250, profiles=['isolation', 'isolation', 'elections', 'mixed'])
+    # every 4th case runs with dynamic membership (nodes added and removed, see C10): "the voters it knows" then changes over time.
+    # In those cases only the has-quorum indicator is judged (the step-down monitors assume a fixed member set).
+    return st.tuples(base, st.sampled_from([False, False, False, True])).map(lambda t: dict(t[0], cfg=dict(t[0]['cfg'], dynamic=t[1])))
 
 
 def run_case(case):
     cfg = dict(case['cfg'])
     cfg['target'] = [PROP]
-    sim = cluster.Sim(cfg)
+    dyn = bool(cfg.get('dynamic'))
+    if dyn:
+        from . import c10
+        sim = c10.DynSim(cfg)
+        c10.install_monitors(sim)
+        sim.target = []             # nothing stops the case; the has-quorum verdict is picked below
+    else:
+        sim = cluster.Sim(cfg)
     try:
-        resolved = simprop.run_steps(sim, case)
+        resolved = simprop.run_steps(sim, case, c10.EXTRA) if dyn else simprop.run_steps(sim, case)
         classes = simprop.base_classes(sim)
+        if dyn:
+            classes.add('dynamic-membership')
+            if sim.counters.get('removed_node_shut_down'):
+                classes.add('node-removed')
+            sim.all_viol = [v for v in sim.all_viol if v[0] != PROP or v[1] == 'hasQuorum-wrong']
         if sim.isolated_long:
             classes.add('leader-isolated-beyond-timeout')
         classes.add('fallback=%s' % cfg['fallback'])
